@@ -141,4 +141,526 @@ theorem tri_normal_outward (hsq : SqrtOk K) (τ : Tol K) (hτ : τ.ok) (hsmall :
       tri_mem_iff v o c1 c2 ρ _ _ ox oy ax ay bx cy (ho _) (h1 _) (h2 _) hdet, key, key]
     exact ⟨hout, hin'⟩
 
+
+/-! ### union / cut / intersection: operand selection and sign flip -/
+
+theorem moved_neg (p n : List K) (ε : K) : moved p (n.map (- ·)) ε = moved p n (-ε) := by
+  induction p generalizing n with
+  | nil => simp [moved]
+  | cons x xs ih =>
+    cases n with
+    | nil => simp [moved]
+    | cons y ys =>
+      simp only [moved, List.map_cons, List.zipWith_cons_cons, List.cons.injEq]
+      exact ⟨by ring, ih ys⟩
+
+theorem map_neg_neg (n : List K) : (n.map (- ·)).map (- ·) = n := by
+  induction n with
+  | nil => rfl
+  | cons x xs ih => simp
+
+theorem dot_neg (n : List K) : dot (n.map (- ·)) (n.map (- ·)) = dot n n := by
+  induction n with
+  | nil => rfl
+  | cons x xs ih =>
+    simp only [dot, List.map_cons, List.zipWith_cons_cons, List.sum_cons] at ih ⊢
+    rw [ih]; ring
+
+theorem OutwardAt.mono {D : Dom K} {v : String} {p n : List K} {ρ : Env K} {ε₀ ε₁ : K}
+    (h : OutwardAt D v p n ρ ε₀) (hle : ε₁ ≤ ε₀) : OutwardAt D v p n ρ ε₁ :=
+  fun ε h0 hlt => h ε h0 (lt_of_lt_of_le hlt hle)
+
+/-- union, point on `∂a`: `a`'s normal is outward for `a ∪ b` if the outward step does not enter `b` -/
+theorem union_outward_left (a b : Dom K) (v : String) (p n : List K) (ρ : Env K) (ε₀ : K)
+    (ha : OutwardAt a v p n ρ ε₀) (hsep : ∀ ε, 0 < ε → ε < ε₀ → ¬ mem b [(v, moved p n ε)] ρ) :
+    OutwardAt (.union a b) v p n ρ ε₀ := fun ε h0 hlt => by
+  obtain ⟨h1, h2⟩ := ha ε h0 hlt
+  exact ⟨fun h => h.elim h1 (hsep ε h0 hlt), Or.inl h2⟩
+
+/-- union, point not on `∂a`: `b`'s normal is outward for `a ∪ b` if the outward step does not enter `a` -/
+theorem union_outward_right (a b : Dom K) (v : String) (p n : List K) (ρ : Env K) (ε₀ : K)
+    (hb : OutwardAt b v p n ρ ε₀) (hsep : ∀ ε, 0 < ε → ε < ε₀ → ¬ mem a [(v, moved p n ε)] ρ) :
+    OutwardAt (.union a b) v p n ρ ε₀ := fun ε h0 hlt => by
+  obtain ⟨h1, h2⟩ := hb ε h0 hlt
+  exact ⟨fun h => h.elim (hsep ε h0 hlt) h1, Or.inr h2⟩
+
+/-- intersection: the selected operand's normal is outward if the inward step stays in the partner -/
+theorem inter_outward_left (a b : Dom K) (v : String) (p n : List K) (ρ : Env K) (ε₀ : K)
+    (ha : OutwardAt a v p n ρ ε₀) (hsep : ∀ ε, 0 < ε → ε < ε₀ → mem b [(v, moved p n (-ε))] ρ) :
+    OutwardAt (.inter a b) v p n ρ ε₀ := fun ε h0 hlt => by
+  obtain ⟨h1, h2⟩ := ha ε h0 hlt
+  exact ⟨fun h => h1 h.1, h2, hsep ε h0 hlt⟩
+
+theorem inter_outward_right (a b : Dom K) (v : String) (p n : List K) (ρ : Env K) (ε₀ : K)
+    (hb : OutwardAt b v p n ρ ε₀) (hsep : ∀ ε, 0 < ε → ε < ε₀ → mem a [(v, moved p n (-ε))] ρ) :
+    OutwardAt (.inter a b) v p n ρ ε₀ := fun ε h0 hlt => by
+  obtain ⟨h1, h2⟩ := hb ε h0 hlt
+  exact ⟨fun h => h1 h.2, hsep ε h0 hlt, h2⟩
+
+/-- cut, point on `∂a`: `a`'s normal is outward for `a ∖ b` if the inward step does not enter `b` -/
+theorem cut_outward_left (a b : Dom K) (v : String) (p n : List K) (ρ : Env K) (ε₀ : K)
+    (ha : OutwardAt a v p n ρ ε₀) (hsep : ∀ ε, 0 < ε → ε < ε₀ → ¬ mem b [(v, moved p n (-ε))] ρ) :
+    OutwardAt (.cut a b) v p n ρ ε₀ := fun ε h0 hlt => by
+  obtain ⟨h1, h2⟩ := ha ε h0 hlt
+  exact ⟨fun h => h1 h.1, h2, hsep ε h0 hlt⟩
+
+/-- cut, point on the removed part's boundary: the FLIPPED normal of `b` is outward for `a ∖ b`
+    if the step out of `b` stays in `a` -/
+theorem cut_outward_right (a b : Dom K) (v : String) (p nb : List K) (ρ : Env K) (ε₀ : K)
+    (hb : OutwardAt b v p nb ρ ε₀) (hsep : ∀ ε, 0 < ε → ε < ε₀ → mem a [(v, moved p nb ε)] ρ) :
+    OutwardAt (.cut a b) v p (nb.map (- ·)) ρ ε₀ := fun ε h0 hlt => by
+  obtain ⟨h1, h2⟩ := hb ε h0 hlt
+  rw [moved_neg, moved_neg, neg_neg]
+  exact ⟨fun h => h.2 h2, hsep ε h0 hlt, h1⟩
+
+/-- the separation hypothesis along the path of operands the code selects at the point `p`
+    (`n` = the normal the composite returns; on the removed side of a cut the operand sees `−n`).
+    Leaves (primitives): "the primitive's own coded normal is outward for the primitive" — what
+    `par_/tri_/circle_/sphere_/interval_normal_outward` establish. -/
+def Sep (o : Bool) (τ : Tol K) : Dom K → String → List K → List K → Env K → K → Prop
+  | .union a b, v, p, n, ρ, ε₀ =>
+    (bdryContains τ a [(v, p)] ρ = some true → Sep o τ a v p n ρ ε₀ ∧ ∀ ε, 0 < ε → ε < ε₀ → ¬ mem b [(v, moved p n ε)] ρ) ∧
+    (bdryContains τ a [(v, p)] ρ = some false → Sep o τ b v p n ρ ε₀ ∧ ∀ ε, 0 < ε → ε < ε₀ → ¬ mem a [(v, moved p n ε)] ρ)
+  | .inter a b, v, p, n, ρ, ε₀ =>
+    (bdryContains τ a [(v, p)] ρ = some true → Sep o τ a v p n ρ ε₀ ∧ ∀ ε, 0 < ε → ε < ε₀ → mem b [(v, moved p n (-ε))] ρ) ∧
+    (bdryContains τ a [(v, p)] ρ = some false → Sep o τ b v p n ρ ε₀ ∧ ∀ ε, 0 < ε → ε < ε₀ → mem a [(v, moved p n (-ε))] ρ)
+  | .cut a b, v, p, n, ρ, ε₀ =>
+    (bdryContains τ a [(v, p)] ρ = some true → Sep o τ a v p n ρ ε₀ ∧ ∀ ε, 0 < ε → ε < ε₀ → ¬ mem b [(v, moved p n (-ε))] ρ) ∧
+    (bdryContains τ a [(v, p)] ρ = some false →
+      Sep o τ b v p (n.map (- ·)) ρ ε₀ ∧ ∀ ε, 0 < ε → ε < ε₀ → mem a [(v, moved p n (-ε))] ρ)
+  | d, v, p, n, ρ, ε₀ => normalAux o τ d [(v, p)] ρ = some n → OutwardAt d v p n ρ ε₀
+
+/-- **Nested unions, cuts and intersections.** For every expression built from union / cut / intersection over
+    any leaves, at every point where the model returns a normal `n`: if the separation hypothesis holds along the
+    path of selected operands (the partner is not entered / not left by the relevant step, and the selected
+    primitive's own normal is outward for that primitive), then `n` — with the sign flips the code applies on
+    removed parts, at any nesting depth — is outward for the whole composite. -/
+theorem normal_bool_outward (o : Bool) (τ : Tol K) (D : Dom K) : ∀ (v : String) (p n : List K) (ρ : Env K) (ε₀ : K),
+    normalAux o τ D [(v, p)] ρ = some n → Sep o τ D v p n ρ ε₀ → OutwardAt D v p n ρ ε₀ := by
+  induction D with
+  | union a b iha ihb =>
+    intro v p n ρ ε₀ hn hs
+    simp only [normalAux, Option.bind_eq_bind] at hn
+    simp only [Sep, bdryContains] at hs
+    cases hon : containsAux τ true a [(v, p)] ρ with
+    | none => simp [hon] at hn
+    | some onA =>
+      cases onA with
+      | true =>
+        simp only [hon, Option.bind_some, if_true] at hn
+        obtain ⟨h1, h2⟩ := hs.1 hon
+        exact union_outward_left a b v p n ρ ε₀ (iha v p n ρ ε₀ hn h1) h2
+      | false =>
+        simp only [hon, Option.bind_some, Bool.false_eq_true, if_false] at hn
+        obtain ⟨h1, h2⟩ := hs.2 hon
+        exact union_outward_right a b v p n ρ ε₀ (ihb v p n ρ ε₀ hn h1) h2
+  | inter a b iha ihb =>
+    intro v p n ρ ε₀ hn hs
+    simp only [normalAux, Option.bind_eq_bind] at hn
+    simp only [Sep, bdryContains] at hs
+    cases hon : containsAux τ true a [(v, p)] ρ with
+    | none => simp [hon] at hn
+    | some onA =>
+      cases onA with
+      | true =>
+        simp only [hon, Option.bind_some, if_true] at hn
+        obtain ⟨h1, h2⟩ := hs.1 hon
+        exact inter_outward_left a b v p n ρ ε₀ (iha v p n ρ ε₀ hn h1) h2
+      | false =>
+        simp only [hon, Option.bind_some, Bool.false_eq_true, if_false] at hn
+        obtain ⟨h1, h2⟩ := hs.2 hon
+        exact inter_outward_right a b v p n ρ ε₀ (ihb v p n ρ ε₀ hn h1) h2
+  | cut a b iha ihb =>
+    intro v p n ρ ε₀ hn hs
+    simp only [normalAux, Option.bind_eq_bind] at hn
+    simp only [Sep, bdryContains] at hs
+    cases hon : containsAux τ true a [(v, p)] ρ with
+    | none => simp [hon] at hn
+    | some onA =>
+      cases onA with
+      | true =>
+        simp only [hon, Option.bind_some, if_true] at hn
+        obtain ⟨h1, h2⟩ := hs.1 hon
+        exact cut_outward_left a b v p n ρ ε₀ (iha v p n ρ ε₀ hn h1) h2
+      | false =>
+        simp only [hon, Option.bind_some, Bool.false_eq_true, if_false, Option.map_eq_some_iff] at hn
+        obtain ⟨nb, hnb, rfl⟩ := hn
+        obtain ⟨h1, h2⟩ := hs.2 hon
+        rw [map_neg_neg] at h1
+        refine cut_outward_right a b v p nb ρ ε₀ (ihb v p nb ρ ε₀ hnb h1) (fun ε h0 hlt => ?_)
+        have := h2 ε h0 hlt
+        rwa [moved_neg, neg_neg] at this
+  | interval | par | tri | circle | sphere | prod | translate | rotate | bdry | bdryL | bdryR =>
+    intro v p n ρ ε₀ hn hs
+    exact hs hn
+
+/-- the leaves' normals are unit vectors -/
+def LeavesUnit (o : Bool) (τ : Tol K) : Dom K → Env K → Env K → Prop
+  | .union a b, pts, ρ | .inter a b, pts, ρ | .cut a b, pts, ρ => LeavesUnit o τ a pts ρ ∧ LeavesUnit o τ b pts ρ
+  | d, pts, ρ => ∀ n, normalAux o τ d pts ρ = some n → dot n n = 1
+
+/-- **Unit length is inherited**: the normal of any nested union / cut / intersection is, up to the sign flip,
+    the normal of one of its leaves — hence a unit vector whenever the leaves' normals are. -/
+theorem normal_bool_unit (o : Bool) (τ : Tol K) (D : Dom K) : ∀ (pts ρ : Env K) (n : List K),
+    LeavesUnit o τ D pts ρ → normalAux o τ D pts ρ = some n → dot n n = 1 := by
+  induction D with
+  | union a b iha ihb | inter a b iha ihb =>
+    intro pts ρ n hl hn
+    simp only [normalAux, Option.bind_eq_bind] at hn
+    simp only [LeavesUnit] at hl
+    cases hon : containsAux τ true a pts ρ with
+    | none => simp [hon] at hn
+    | some onA =>
+      cases onA with
+      | true => simp only [hon, Option.bind_some, if_true] at hn; exact iha pts ρ n hl.1 hn
+      | false => simp only [hon, Option.bind_some, Bool.false_eq_true, if_false] at hn; exact ihb pts ρ n hl.2 hn
+  | cut a b iha ihb =>
+    intro pts ρ n hl hn
+    simp only [normalAux, Option.bind_eq_bind] at hn
+    simp only [LeavesUnit] at hl
+    cases hon : containsAux τ true a pts ρ with
+    | none => simp [hon] at hn
+    | some onA =>
+      cases onA with
+      | true => simp only [hon, Option.bind_some, if_true] at hn; exact iha pts ρ n hl.1 hn
+      | false =>
+        simp only [hon, Option.bind_some, Bool.false_eq_true, if_false, Option.map_eq_some_iff] at hn
+        obtain ⟨nb, hnb, rfl⟩ := hn
+        rw [dot_neg]; exact ihb pts ρ nb hl.2 hnb
+  | interval | par | tri | circle | sphere | prod | translate | rotate | bdry | bdryL | bdryR =>
+    intro pts ρ n hl hn
+    exact hl n hn
+
+/-! ### disc, ball, interval -/
+
+theorem circle_mem_iff (v : String) (c r : PFun K) (ρ : Env K) (x y cx cy rr : K)
+    (hc : c.f ([(v, [x, y])] ++ ρ) = [cx, cy]) (hr : r.f ([(v, [x, y])] ++ ρ) = [rr]) (hpos : 0 ≤ rr) :
+    mem (.circle v c r) [(v, [x, y])] ρ ↔ (x - cx) ^ 2 + (y - cy) ^ 2 ≤ rr ^ 2 := by
+  simp only [mem, get_single]
+  constructor
+  · rintro ⟨x', y', cx', cy', rr', hp, hc', hr', _, h⟩
+    rw [hc] at hc'; rw [hr] at hr'
+    simp only [Option.some.injEq, List.cons.injEq, and_true] at hp hc' hr'
+    obtain ⟨rfl, rfl⟩ := hp; obtain ⟨rfl, rfl⟩ := hc'; subst hr'; exact h
+  · intro h; exact ⟨x, y, cx, cy, rr, rfl, hc, hr, hpos, h⟩
+
+/-- **Disc.** At every point of the circle line (any centre, any positive radius, parameter-dependent or not) the
+    coded normal `(p − c)/r` is a unit vector; every step along it leaves the disc, every step shorter than the
+    diameter against it stays inside. -/
+theorem circle_normal_outward (o : Bool) (τ : Tol K) (v : String) (c r : PFun K) (ρ : Env K) (x y cx cy rr : K)
+    (hc : ∀ q, c.f ([(v, q)] ++ ρ) = [cx, cy]) (hr : ∀ q, r.f ([(v, q)] ++ ρ) = [rr]) (hpos : 0 < rr)
+    (hon : (x - cx) ^ 2 + (y - cy) ^ 2 = rr ^ 2) :
+    normalAux o τ (.circle v c r) [(v, [x, y])] ρ = some [(x - cx) / rr, (y - cy) / rr] ∧
+    dot [(x - cx) / rr, (y - cy) / rr] [(x - cx) / rr, (y - cy) / rr] = 1 ∧
+    OutwardAt (.circle v c r) v [x, y] [(x - cx) / rr, (y - cy) / rr] ρ (2 * rr) := by
+  have hz : isZero rr = false := by
+    cases h : isZero rr
+    · rfl
+    · exact absurd ((isZero_iff rr).mp h) hpos.ne'
+  refine ⟨by simp only [normalAux, get_single, hc, hr, hz]; simp, ?_, ?_⟩
+  · rw [dot2, div_mul_div_comm, div_mul_div_comm, ← add_div, div_eq_one_iff_eq (by positivity)]
+    rw [← pow_two rr, ← hon]; ring
+  · intro ε h0 hlt
+    simp only [moved, List.zipWith_cons_cons, List.zipWith_nil_right]
+    rw [circle_mem_iff v c r ρ _ _ cx cy rr (hc _) (hr _) hpos.le, circle_mem_iff v c r ρ _ _ cx cy rr (hc _) (hr _) hpos.le]
+    have e : ∀ e : K, (x + e * ((x - cx) / rr) - cx) ^ 2 + (y + e * ((y - cy) / rr) - cy) ^ 2 = (1 + e / rr) ^ 2 * rr ^ 2 := by
+      intro e
+      have : (x + e * ((x - cx) / rr) - cx) ^ 2 + (y + e * ((y - cy) / rr) - cy) ^ 2 =
+          (1 + e / rr) ^ 2 * ((x - cx) ^ 2 + (y - cy) ^ 2) := by field_simp; ring
+      rw [this, hon]
+    rw [e, e]
+    have hr2 : 0 < rr ^ 2 := by positivity
+    have hk : 0 < ε / rr := div_pos h0 hpos
+    have hk2 : ε / rr < 2 := by rw [div_lt_iff₀ hpos]; linarith
+    constructor
+    · rw [not_le]
+      have h1 : 1 < (1 + ε / rr) ^ 2 := by nlinarith
+      have := mul_lt_mul_of_pos_right h1 hr2
+      linarith
+    · have : (1 + -ε / rr) ^ 2 ≤ 1 := by
+        have : -ε / rr = -(ε / rr) := by ring
+        rw [this]; nlinarith
+      nlinarith
+
+theorem dot3 (a b c : K) : dot [a, b, c] [a, b, c] = a * a + b * b + c * c := by simp [dot]; ring
+
+theorem sphere_mem_iff (v : String) (c r : PFun K) (ρ : Env K) (x y z cx cy cz rr : K)
+    (hc : c.f ([(v, [x, y, z])] ++ ρ) = [cx, cy, cz]) (hr : r.f ([(v, [x, y, z])] ++ ρ) = [rr]) (hpos : 0 ≤ rr) :
+    mem (.sphere v c r) [(v, [x, y, z])] ρ ↔ (x - cx) ^ 2 + (y - cy) ^ 2 + (z - cz) ^ 2 ≤ rr ^ 2 := by
+  simp only [mem, get_single]
+  constructor
+  · rintro ⟨x', y', z', cx', cy', cz', rr', hp, hc', hr', _, h⟩
+    rw [hc] at hc'; rw [hr] at hr'
+    simp only [Option.some.injEq, List.cons.injEq, and_true] at hp hc' hr'
+    obtain ⟨rfl, rfl, rfl⟩ := hp; obtain ⟨rfl, rfl, rfl⟩ := hc'; subst hr'; exact h
+  · intro h; exact ⟨x, y, z, cx, cy, cz, rr, rfl, hc, hr, hpos, h⟩
+
+/-- **Ball.** The same for the sphere surface in three dimensions. -/
+theorem sphere_normal_outward (o : Bool) (τ : Tol K) (v : String) (c r : PFun K) (ρ : Env K)
+    (x y z cx cy cz rr : K)
+    (hc : ∀ q, c.f ([(v, q)] ++ ρ) = [cx, cy, cz]) (hr : ∀ q, r.f ([(v, q)] ++ ρ) = [rr]) (hpos : 0 < rr)
+    (hon : (x - cx) ^ 2 + (y - cy) ^ 2 + (z - cz) ^ 2 = rr ^ 2) :
+    normalAux o τ (.sphere v c r) [(v, [x, y, z])] ρ = some [(x - cx) / rr, (y - cy) / rr, (z - cz) / rr] ∧
+    dot [(x - cx) / rr, (y - cy) / rr, (z - cz) / rr] [(x - cx) / rr, (y - cy) / rr, (z - cz) / rr] = 1 ∧
+    OutwardAt (.sphere v c r) v [x, y, z] [(x - cx) / rr, (y - cy) / rr, (z - cz) / rr] ρ (2 * rr) := by
+  have hz : isZero rr = false := by
+    cases h : isZero rr
+    · rfl
+    · exact absurd ((isZero_iff rr).mp h) hpos.ne'
+  refine ⟨by simp only [normalAux, get_single, hc, hr, hz]; simp, ?_, ?_⟩
+  · rw [dot3, div_mul_div_comm, div_mul_div_comm, div_mul_div_comm, ← add_div, ← add_div,
+      div_eq_one_iff_eq (by positivity)]
+    rw [← pow_two rr, ← hon]; ring
+  · intro ε h0 hlt
+    simp only [moved, List.zipWith_cons_cons, List.zipWith_nil_right]
+    rw [sphere_mem_iff v c r ρ _ _ _ cx cy cz rr (hc _) (hr _) hpos.le,
+      sphere_mem_iff v c r ρ _ _ _ cx cy cz rr (hc _) (hr _) hpos.le]
+    have e : ∀ e : K, (x + e * ((x - cx) / rr) - cx) ^ 2 + (y + e * ((y - cy) / rr) - cy) ^ 2 +
+        (z + e * ((z - cz) / rr) - cz) ^ 2 = (1 + e / rr) ^ 2 * rr ^ 2 := by
+      intro e
+      have : (x + e * ((x - cx) / rr) - cx) ^ 2 + (y + e * ((y - cy) / rr) - cy) ^ 2 +
+          (z + e * ((z - cz) / rr) - cz) ^ 2 =
+          (1 + e / rr) ^ 2 * ((x - cx) ^ 2 + (y - cy) ^ 2 + (z - cz) ^ 2) := by field_simp; ring
+      rw [this, hon]
+    rw [e, e]
+    have hr2 : 0 < rr ^ 2 := by positivity
+    have hk : 0 < ε / rr := div_pos h0 hpos
+    have hk2 : ε / rr < 2 := by rw [div_lt_iff₀ hpos]; linarith
+    constructor
+    · rw [not_le]
+      have h1 : 1 < (1 + ε / rr) ^ 2 := by nlinarith
+      have := mul_lt_mul_of_pos_right h1 hr2
+      linarith
+    · have : (1 + -ε / rr) ^ 2 ≤ 1 := by
+        have : -ε / rr = -(ε / rr) := by ring
+        rw [this]; nlinarith
+      nlinarith
+
+theorem interval_mem_iff (v : String) (lb ub : PFun K) (ρ : Env K) (x l u : K)
+    (hl : lb.f ([(v, [x])] ++ ρ) = [l]) (hu : ub.f ([(v, [x])] ++ ρ) = [u]) :
+    mem (.interval v lb ub) [(v, [x])] ρ ↔ l ≤ x ∧ x ≤ u := by
+  simp only [mem, get_single]
+  constructor
+  · rintro ⟨x', l', u', hp, hl', hu', h1, h2⟩
+    rw [hl] at hl'; rw [hu] at hu'
+    simp only [Option.some.injEq, List.cons.injEq, and_true] at hp hl' hu'
+    subst hp hl' hu'; exact ⟨h1, h2⟩
+  · rintro ⟨h1, h2⟩; exact ⟨x, l, u, rfl, hl, hu, h1, h2⟩
+
+/-- **Interval.** At the left end the coded normal is −1, at the right end +1 (whenever the interval is longer
+    than the `isclose` tolerance, so that the right end is not mistaken for the left one); both point outwards. -/
+theorem interval_normal_outward (o : Bool) (τ : Tol K) (hτ : τ.ok) (v : String) (lb ub : PFun K) (ρ : Env K) (l u : K)
+    (hl : ∀ q, lb.f ([(v, q)] ++ ρ) = [l]) (hu : ∀ q, ub.f ([(v, q)] ++ ρ) = [u])
+    (hsep : τ.atol + τ.rtol * |l| < u - l) :
+    (normalAux o τ (.interval v lb ub) [(v, [l])] ρ = some [-1] ∧ OutwardAt (.interval v lb ub) v [l] [-1] ρ (u - l)) ∧
+    (normalAux o τ (.interval v lb ub) [(v, [u])] ρ = some [1] ∧ OutwardAt (.interval v lb ub) v [u] [1] ρ (u - l)) := by
+  have hnc : isclose τ u l = false := by
+    cases h : isclose τ u l
+    · rfl
+    · rw [isclose_iff] at h
+      have := le_abs_self (u - l); linarith
+  refine ⟨⟨by simp only [normalAux, get_single, hl, hu, isclose_self τ hτ l, if_true], ?_⟩,
+          ⟨by simp only [normalAux, get_single, hl, hu, hnc]; simp, ?_⟩⟩
+  · intro ε h0 hlt
+    simp only [moved, List.zipWith_cons_cons, List.zipWith_nil_right]
+    rw [interval_mem_iff v lb ub ρ _ l u (hl _) (hu _), interval_mem_iff v lb ub ρ _ l u (hl _) (hu _)]
+    constructor
+    · rintro ⟨h1, _⟩; linarith
+    · constructor <;> linarith
+  · intro ε h0 hlt
+    simp only [moved, List.zipWith_cons_cons, List.zipWith_nil_right]
+    rw [interval_mem_iff v lb ub ρ _ l u (hl _) (hu _), interval_mem_iff v lb ub ρ _ l u (hl _) (hu _)]
+    constructor
+    · rintro ⟨_, h2⟩; linarith
+    · constructor <;> linarith
+
+
+
+/-- `Interval.boundary_left / boundary_right` (`IntervalSingleBoundaryPoint.normal`) return the constants −1 / +1 —
+    outward at the left / right end by `interval_normal_outward`; `.boundary.normal` of any other expression is
+    `normalAux`. -/
+theorem side_normal (o : Bool) (τ : Tol K) (v : String) (lb ub : PFun K) (ρ : Env K) (x : K) :
+    normal o τ (.bdryL (.interval v lb ub)) [(v, [x])] ρ = some [-1] ∧
+    normal o τ (.bdryR (.interval v lb ub)) [(v, [x])] ρ = some [1] ∧
+    ∀ (d : Dom K) (pts : Env K), normal o τ (.bdry d) pts ρ = normalAux o τ d pts ρ := by
+  refine ⟨?_, ?_, fun d pts => rfl⟩ <;> simp only [normal, get_single]
+
+
+/-! ### the code before the orientation fix (`oriented = false`) -/
+
+theorem sgn_neg_of_neg (d : K) (h : d < 0) : sgn d = -1 := by
+  unfold sgn
+  have : ¬ (0 : K) ≤ d := not_le.mpr h
+  simp [le_of_lt h, this]
+
+theorem isZero_neg (a : K) : isZero (-a) = isZero a := by
+  cases h : isZero a
+  · cases h' : isZero (-a)
+    · rfl
+    · have := (isZero_iff (-a)).mp h'
+      have : a = 0 := by linarith
+      rw [(isZero_iff a).mpr this] at h; exact absurd h (by simp)
+  · have := (isZero_iff a).mp h
+    exact (isZero_iff (-a)).mpr (by rw [this]; simp)
+
+/-- for clockwise vertices (negative determinant) the old code returned exactly the opposite vector -/
+theorem finish2_flip (det : K) (hdet : det < 0) (raw : K × K) :
+    finish2 false det raw = (finish2 true det raw).map (·.map (- ·)) := by
+  simp only [finish2, sgn_neg_of_neg det hdet, if_true, Bool.false_eq_true, if_false, mul_one, mul_neg, isZero_neg]
+  cases isZero raw.1 && isZero raw.2
+  · simp only [Bool.false_eq_true, if_false, Option.map_some, List.map_cons, List.map_nil, unit2]
+    have e : -raw.1 * -raw.1 + -raw.2 * -raw.2 = raw.1 * raw.1 + raw.2 * raw.2 := by ring
+    rw [e]
+    congr 2
+    · ring
+    · congr 1; ring
+  · simp
+
+/-- **The property was false of the code before the fix**: for EVERY clockwise parallelogram (negative
+    determinant) and every boundary point, the vector returned by the old `normal` points INTO the domain — a small
+    step along it stays inside, a small step against it leaves. -/
+theorem par_normal_old_inward (hsq : SqrtOk K) (τ : Tol K) (hτ : τ.ok) (hsmall : τ.small)
+    (v : String) (o c1 c2 : PFun K) (ρ : Env K) (ox oy ax ay bx cy s t : K)
+    (ho : ∀ q, o.f ([(v, q)] ++ ρ) = [ox, oy]) (h1 : ∀ q, c1.f ([(v, q)] ++ ρ) = [ax, ay])
+    (h2 : ∀ q, c2.f ([(v, q)] ++ ρ) = [bx, cy])
+    (hcw : (ax - ox) * (cy - oy) - (ay - oy) * (bx - ox) < 0)
+    (hs : In01 s) (ht : In01 t) (hb : s = 0 ∨ s = 1 ∨ t = 0 ∨ t = 1) :
+    ∃ n ε₀, 0 < ε₀ ∧
+      normalAux false τ (.par v o c1 c2)
+        [(v, [ox + s * (ax - ox) + t * (bx - ox), oy + s * (ay - oy) + t * (cy - oy)])] ρ = some n ∧
+      ∀ ε, 0 < ε → ε < ε₀ →
+        mem (.par v o c1 c2) [(v, moved [ox + s * (ax - ox) + t * (bx - ox), oy + s * (ay - oy) + t * (cy - oy)] n ε)] ρ ∧
+        ¬ mem (.par v o c1 c2) [(v, moved [ox + s * (ax - ox) + t * (bx - ox), oy + s * (ay - oy) + t * (cy - oy)] n (-ε))] ρ := by
+  obtain ⟨n, ε₀, hε, hn, _, hout⟩ := par_normal_outward hsq τ hτ hsmall v o c1 c2 ρ ox oy ax ay bx cy s t ho h1 h2 hcw.ne hs ht hb
+  refine ⟨n.map (- ·), ε₀, hε, ?_, fun ε h0 hlt => ?_⟩
+  · simp only [normalAux, get_single, ho, h1, h2] at hn ⊢
+    rw [finish2_flip _ hcw, hn]; rfl
+  · obtain ⟨a, b⟩ := hout ε h0 hlt
+    rw [moved_neg, moved_neg, neg_neg]
+    exact ⟨b, a⟩
+
+/-- the same for every clockwise triangle -/
+theorem tri_normal_old_inward (hsq : SqrtOk K) (τ : Tol K) (hτ : τ.ok) (hsmall : τ.small)
+    (v : String) (o c1 c2 : PFun K) (ρ : Env K) (ox oy ax ay bx cy s t : K)
+    (ho : ∀ q, o.f ([(v, q)] ++ ρ) = [ox, oy]) (h1 : ∀ q, c1.f ([(v, q)] ++ ρ) = [ax, ay])
+    (h2 : ∀ q, c2.f ([(v, q)] ++ ρ) = [bx, cy])
+    (hcw : (ax - ox) * (cy - oy) - (ay - oy) * (bx - ox) < 0)
+    (hin : InTri s t) (hb : s = 0 ∨ t = 0 ∨ t + s = 1) :
+    ∃ n ε₀, 0 < ε₀ ∧
+      normalAux false τ (.tri v o c1 c2)
+        [(v, [ox + s * (ax - ox) + t * (bx - ox), oy + s * (ay - oy) + t * (cy - oy)])] ρ = some n ∧
+      ∀ ε, 0 < ε → ε < ε₀ →
+        mem (.tri v o c1 c2) [(v, moved [ox + s * (ax - ox) + t * (bx - ox), oy + s * (ay - oy) + t * (cy - oy)] n ε)] ρ ∧
+        ¬ mem (.tri v o c1 c2) [(v, moved [ox + s * (ax - ox) + t * (bx - ox), oy + s * (ay - oy) + t * (cy - oy)] n (-ε))] ρ := by
+  obtain ⟨n, ε₀, hε, hn, _, hout⟩ := tri_normal_outward hsq τ hτ hsmall v o c1 c2 ρ ox oy ax ay bx cy s t ho h1 h2 hcw.ne hin hb
+  refine ⟨n.map (- ·), ε₀, hε, ?_, fun ε h0 hlt => ?_⟩
+  · simp only [normalAux, get_single, ho, h1, h2] at hn ⊢
+    rw [finish2_flip _ hcw, hn]; rfl
+  · obtain ⟨a, b⟩ := hout ε h0 hlt
+    rw [moved_neg, moved_neg, neg_neg]
+    exact ⟨b, a⟩
+
+/-! ### real numbers: `Real.sqrt` is a square root, the Euclidean length of the normal is 1 -/
+
+noncomputable instance : HasSqrt ℝ := ⟨Real.sqrt⟩
+
+theorem sqrtOk_real : SqrtOk ℝ := fun x hx => ⟨Real.sqrt_nonneg x, Real.mul_self_sqrt hx⟩
+
+/-- over ℝ: `‖n‖ = √(n·n) = 1` -/
+theorem normal_norm_real (n : List ℝ) (h : dot n n = 1) : Real.sqrt (dot n n) = 1 := by
+  rw [h, Real.sqrt_one]
+
+/-- torch's tolerances (`isclose` defaults, `BARY_ATOL`) as real numbers -/
+noncomputable def tolR : Tol ℝ := ⟨1 / 100000000, 1 / 100000, 1 / 100000⟩
+
+theorem tolR_ok : tolR.ok ∧ tolR.small := by
+  refine ⟨⟨?_, ?_, ?_⟩, ?_⟩ <;> simp only [tolR, Tol.small] <;> norm_num
+
+/-- non-vacuity: a slanted CLOCKWISE parallelogram (det = −5) at its corner `corner_2`, over ℝ -/
+example : ∃ n ε₀, 0 < ε₀ ∧
+    normalAux true tolR (.par "x" (.const [0, 0]) (.const [1, 2]) (.const [3, 1]))
+      [("x", [0 + 0 * (1 - 0) + 1 * (3 - 0), 0 + 0 * (2 - 0) + 1 * (1 - 0)])] [] = some n ∧ dot n n = 1 ∧
+    OutwardAt (.par "x" (.const [0, 0]) (.const [1, 2]) (.const [3, 1])) "x"
+      [0 + 0 * (1 - 0) + 1 * (3 - 0), 0 + 0 * (2 - 0) + 1 * (1 - 0)] n [] ε₀ :=
+  par_normal_outward sqrtOk_real tolR tolR_ok.1 tolR_ok.2 "x" _ _ _ [] 0 0 1 2 3 1 0 1
+    (fun _ => rfl) (fun _ => rfl) (fun _ => rfl) (by norm_num) ⟨by norm_num, by norm_num⟩ ⟨by norm_num, by norm_num⟩
+    (Or.inl rfl)
+
+/-- non-vacuity: a clockwise triangle on its slanted edge `s + t = 1`, over ℝ; and the old code's inward normal -/
+example : ∃ n ε₀, 0 < ε₀ ∧
+    normalAux true tolR (.tri "x" (.const [0, 0]) (.const [0, 1]) (.const [2, 0]))
+      [("x", [0 + 1 / 4 * (0 - 0) + 3 / 4 * (2 - 0), 0 + 1 / 4 * (1 - 0) + 3 / 4 * (0 - 0)])] [] = some n ∧ dot n n = 1 ∧
+    OutwardAt (.tri "x" (.const [0, 0]) (.const [0, 1]) (.const [2, 0])) "x"
+      [0 + 1 / 4 * (0 - 0) + 3 / 4 * (2 - 0), 0 + 1 / 4 * (1 - 0) + 3 / 4 * (0 - 0)] n [] ε₀ :=
+  tri_normal_outward sqrtOk_real tolR tolR_ok.1 tolR_ok.2 "x" _ _ _ [] 0 0 0 1 2 0 (1 / 4) (3 / 4)
+    (fun _ => rfl) (fun _ => rfl) (fun _ => rfl) (by norm_num) ⟨by norm_num, by norm_num, by norm_num⟩
+    (Or.inr (Or.inr (by norm_num)))
+
+example : ∃ n ε₀, 0 < ε₀ ∧
+    normalAux false tolR (.par "x" (.const [0, 0]) (.const [0, 1]) (.const [1, 0]))
+      [("x", [0 + 1 / 2 * (0 - 0) + 0 * (1 - 0), 0 + 1 / 2 * (1 - 0) + 0 * (0 - 0)])] [] = some n ∧
+    ∀ ε, 0 < ε → ε < ε₀ →
+      mem (.par "x" (.const [0, 0]) (.const [0, 1]) (.const [1, 0]))
+        [("x", moved [0 + 1 / 2 * (0 - 0) + 0 * (1 - 0), 0 + 1 / 2 * (1 - 0) + 0 * (0 - 0)] n ε)] [] ∧
+      ¬ mem (.par "x" (.const [0, 0]) (.const [0, 1]) (.const [1, 0]))
+        [("x", moved [0 + 1 / 2 * (0 - 0) + 0 * (1 - 0), 0 + 1 / 2 * (1 - 0) + 0 * (0 - 0)] n (-ε))] [] :=
+  par_normal_old_inward sqrtOk_real tolR tolR_ok.1 tolR_ok.2 "x" _ _ _ [] 0 0 0 1 1 0 (1 / 2) 0
+    (fun _ => rfl) (fun _ => rfl) (fun _ => rfl) (by norm_num) ⟨by norm_num, by norm_num⟩ ⟨by norm_num, by norm_num⟩
+    (Or.inr (Or.inr (Or.inl rfl)))
+
+/-! ### non-vacuity of the Boolean theorems on the executable instance `ℚ` -/
+
+section examples
+/-- only so that the model can be evaluated over `ℚ` in the examples below; no square root is taken on discs,
+    balls and intervals, and the theorems used here do not assume `SqrtOk` -/
+local instance ratNoSqrt : HasSqrt Rat := ⟨fun x => x⟩
+
+def tolQ : Tol Rat := ⟨1 / 100000000, 1 / 100000, 1 / 100000⟩
+
+/-- square `[0,4]²` minus the unit disc around (2,2) -/
+def exCut : Dom Rat :=
+  .cut (.par "x" (.const [0, 0]) (.const [4, 0]) (.const [0, 4])) (.circle "x" (.const [2, 2]) (.const [1]))
+
+/-- at the point (3,2) of the hole's rim the model returns the FLIPPED disc normal (−1, 0), and it is outward for
+    the cut domain: steps towards the hole's centre leave the domain, steps away from it stay inside. -/
+example : normalAux true tolQ exCut [("x", [3, 2])] [] = some [-1, 0] ∧
+    OutwardAt exCut "x" [3, 2] [-1, 0] [] 1 := by
+  have hn : normalAux true tolQ exCut [("x", [3, 2])] [] = some [-1, 0] := by decide +kernel
+  refine ⟨hn, normal_bool_outward true tolQ exCut "x" [3, 2] [-1, 0] [] 1 hn ?_⟩
+  simp only [exCut, Sep]
+  refine ⟨fun h => absurd h (by decide +kernel), fun _ => ⟨?_, ?_⟩⟩
+  · intro _
+    have h := circle_normal_outward true tolQ "x" (.const [2, 2]) (.const [1]) [] 3 2 2 2 1
+      (fun _ => rfl) (fun _ => rfl) (by norm_num) (by norm_num)
+    have e : ([(3 - 2) / 1, (2 - 2) / 1] : List Rat) = [1, 0] := by norm_num
+    rw [e] at h
+    have e2 : (([-1, 0] : List Rat).map (- ·)) = [1, 0] := by norm_num
+    rw [e2]
+    exact h.2.2.mono (by norm_num)
+  · intro ε h0 hlt
+    simp only [moved, List.zipWith_cons_cons, List.zipWith_nil_right]
+    refine ⟨_, _, 0, 0, 4, 0, 0, 4, (3 + ε) / 4, 1 / 2, get_single _ _, rfl, rfl, rfl, ?_, ?_, ?_, ?_, ?_, ?_⟩
+    · linarith
+    · linarith
+    · norm_num
+    · norm_num
+    · ring
+    · ring
+
+/-- interval `[0, 2]`: −1 at the left end, +1 at the right end -/
+example : (normalAux true tolQ (.interval "y" (.const [0]) (.const [2]) : Dom Rat) [("y", [0])] [] = some [-1] ∧
+      OutwardAt (.interval "y" (.const [0]) (.const [2]) : Dom Rat) "y" [0] [-1] [] (2 - 0)) ∧
+    (normalAux true tolQ (.interval "y" (.const [0]) (.const [2]) : Dom Rat) [("y", [2])] [] = some [1] ∧
+      OutwardAt (.interval "y" (.const [0]) (.const [2]) : Dom Rat) "y" [2] [1] [] (2 - 0)) :=
+  interval_normal_outward true tolQ (by simp only [Tol.ok, tolQ]; norm_num) "y" (.const [0]) (.const [2]) [] (0 : Rat) 2
+    (fun _ => rfl) (fun _ => rfl) (by simp only [tolQ]; norm_num)
+
+/-- ball of radius 3 around (1,0,0) at the rational surface point (3,1,2) -/
+example : dot [(3 - 1) / 3, (1 - 0) / 3, (2 - 0) / (3 : Rat)] [(3 - 1) / 3, (1 - 0) / 3, (2 - 0) / 3] = 1 ∧
+    OutwardAt (.sphere "z" (.const [1, 0, 0]) (.const [3]) : Dom Rat) "z" [3, 1, 2] [(3 - 1) / 3, (1 - 0) / 3, (2 - 0) / 3] [] (2 * 3) :=
+  (sphere_normal_outward true tolQ "z" (.const [1, 0, 0]) (.const [3]) [] 3 1 2 1 0 0 3
+    (fun _ => rfl) (fun _ => rfl) (by norm_num) (by norm_num)).2
+
+end examples
+
 end TPV.Geom
